@@ -721,6 +721,24 @@ func genBotWorker(c *Ctx) {
 				replay: n, menu: "MTaAt", depth: 2 + extra, gameNo: 900 + len(scns)})
 		}
 	}
+	// the same tower on the edge square d1, spread over the whole file d2..d8: seven drops, the longest wire line there is
+	// (`M D1 D8 2 1 1 1 1 1 1`)
+	var edgePrefix []string
+	for _, mv := range towerPrefix {
+		mv = strings.NewReplacer("c4", "c1", "e4", "e1", "h1", "h2", "g1", "g2", "f1", "f2").Replace(mv)
+		edgePrefix = append(edgePrefix, mv)
+	}
+	for ti, last := range []string{"8d1+2111111", "7d1+1111111"} {
+		sc := botScript{name: fmt.Sprintf("edgetower%d", ti), size: 8, moves: append(append([]string{}, edgePrefix...), last)}
+		script, alt, hasAlt := mkScript(sc)
+		n := len(script)
+		for _, colour := range []string{"w", "b"} {
+			scns = append(scns, &botScn{name: fmt.Sprintf("edgetower%d-core-%s", ti, colour), colour: colour, size: 8, script: script, alt: alt, hasAlt: hasAlt,
+				pre: n - 2, menu: "MTaAt", depth: 3 + extra, gameNo: 950 + len(scns)})
+			scns = append(scns, &botScn{name: fmt.Sprintf("edgetower%d-resume-%s", ti, colour), colour: colour, size: 8, script: script, alt: alt, hasAlt: hasAlt,
+				replay: n, menu: "MTaAt", depth: 2 + extra, gameNo: 950 + len(scns)})
+		}
+	}
 	scns = append(fin, scns...)
 	budget := time.Duration(envInt("VERIF_C07_BUDGET_S", map[bool]int{false: 8, true: 900}[c.Thorough()])) * time.Second
 	botDeadline = time.Now().Add(budget)
